@@ -8,7 +8,7 @@
    does not listen the model therefore predicts the hang, the observation agrees
    with it, and [pclass] -- the property on the observation -- reports it. *)
 From Coq Require Import ZArith NArith List Bool String.
-From GoCoap Require Import Base.Cases Liveness.Model Liveness.Close Liveness.Spec Gen.WakeSets.
+From GoCoap Require Import Base.Cases Liveness.Model Liveness.Close Liveness.Stall Liveness.Spec Gen.WakeSets.
 Import ListNotations.
 Local Open Scope list_scope.
 Open Scope Z_scope.
@@ -34,7 +34,17 @@ Inductive case :=
 | CloseRun (tr : Z) (sock : bool) (nclose ncb inflight : Z) (o_cb : list Z) (o_done o_closers o_panic o_ops : bool)
 (* nstop concurrent Server.Stop calls (srv: 0 udp, 1 tcp) with nconn peers, ncb callbacks per server-side
    connection *)
-| StopRun (srv nstop nconn ncb : Z) (o_cb : list Z) (o_done o_closers o_panic o_ops o_serve : bool).
+| StopRun (srv nstop nconn ncb : Z) (o_cb : list Z) (o_done o_closers o_panic o_ops o_serve : bool)
+(* the write of operation op is stalled in the socket (the peer stopped reading) when the trigger fires:
+   tr 1 tcp session / 2 dtls session over a scripted conn whose Write blocks until it is closed, 6 real loopback tcp
+   (op 6 = request with a body far beyond the socket buffers); trig 0 cancel, 1 deadline, 2 nclose concurrent
+   local Close calls, 3 the peer closes *)
+| Stall (tr op trig nclose ncb : Z) (o_cb : list Z) (o_done o_closers o_panic o_op : bool) (o_err : Z)
+(* the reader loop ends because of the peer (cause 0 undecodable input, 1 oversized message, 2 peer closes) with
+   ninfl operations in flight and no Close call; sock = the session owns the socket; tr 1 tcp, 2 dtls, 3 udp
+   loopback (sock: udp.Dial, otherwise udp.Client over a socket of the caller); o_ctx = connection context
+   cancelled; o_late = a call made afterwards returned *)
+| ReaderEnd (tr : Z) (sock : bool) (cause ninfl ncb : Z) (o_cb : list Z) (o_done o_ctx o_ops o_late : bool).
 
 Definition udp_like (tr : Z) : bool := negb (tr =? 1).
 
@@ -144,6 +154,24 @@ Fixpoint zlist_eqb (a b : list Z) : bool :=
 Definition eff_trig (tr pt peer trig : Z) : Z :=
   if ((tr =? 2) || (tr =? 3)) && (peer =? 1) && negb (pt =? 0) then 3 else trig.
 
+(* stalled write: the blocking model (Stall.v) with one writer, the Close calls of the scenario and the reader loop,
+   peer not reading, under a round-robin schedule long enough for everything that can happen to happen
+   (StallProofs.step_measure: at most [measure] steps are ever taken):
+   (the operation returned, every Close call returned, Done completed) *)
+Definition is_nil {A} (l : list A) : bool := match l with [] => true | _ => false end.
+Definition stall_model (trig nclose : Z) : bool * bool * bool :=
+  let e := mkEnv true (trig =? 3) in
+  let n := if trig =? 2 then Z.to_nat nclose else O in
+  let ts := stall_sys CloseLib [1%nat] n in
+  let x := bexec e (b_init, ts) (rr (List.length ts) (S (measure ts))) in
+  (is_nil (nth 0 (snd x) []), forallb is_nil (firstn n (skipn 1 (snd x))), b_done (fst x)).
+
+(* reader loop ended by the peer: the Run exit alone (Close.v) *)
+Definition reader_end_model (k : dkind) (sock : bool) (ncb : nat) : list Z * bool * bool :=
+  let cbs := seq 0 ncb in
+  let x := exec k (init_st cbs, [run_exit_prog sock]) (repeat O (6 + ncb)) in
+  (map (fun f => Z.of_nat (count_occ Nat.eq_dec (c_ran (fst x)) f)) cbs, c_done (fst x), c_cancelled (fst x)).
+
 Definition agrees (c : case) : bool :=
   match c with
   | Op tr op pt peer trig0 o_ret o_err =>
@@ -162,6 +190,15 @@ Definition agrees (c : case) : bool :=
       let '(cb, dn, pn) := model_close DoneCtx false (Z.to_nat nstop) (Z.to_nat nstop) (Z.to_nat ncb) in
       zlist_eqb o_cb (flat_map (fun _ => cb) (seq 0 (Z.to_nat nconn))) && Bool.eqb o_done dn && Bool.eqb o_panic pn &&
       o_closers && o_ops && o_serve
+  | Stall tr _ trig nclose ncb o_cb o_done o_closers o_panic o_op o_err =>
+      let '(m_op, m_closers, m_done) := stall_model trig nclose in
+      let cb := if m_done then fst (fst (model_close (kind_of tr) true (Z.to_nat nclose) 1 (Z.to_nat ncb)))
+                else map (fun _ => 0) (seq 0 (Z.to_nat ncb)) in
+      Bool.eqb o_op m_op && Bool.eqb o_closers m_closers && Bool.eqb o_done m_done && negb o_panic &&
+      zlist_eqb o_cb cb && (negb o_op || negb (o_err =? 0))
+  | ReaderEnd tr sock _ _ ncb o_cb o_done o_ctx o_ops o_late =>
+      let '(cb, dn, cn) := reader_end_model (kind_of tr) sock (Z.to_nat ncb) in
+      zlist_eqb o_cb cb && Bool.eqb o_done dn && Bool.eqb o_ctx cn && o_ops && o_late
   end.
 
 (* the property on the OBSERVED output (Spec only) *)
@@ -171,6 +208,8 @@ Definition pclass (c : case) : N :=
   | Disc _ _ trig o_ret o_err => op_class false o_ret o_err
   | CloseRun _ _ _ _ _ o_cb o_done o_closers o_panic o_ops => close_class o_cb o_done o_closers o_panic o_ops true
   | StopRun _ _ _ _ o_cb o_done o_closers o_panic o_ops o_serve => close_class o_cb o_done o_closers o_panic o_ops o_serve
+  | Stall _ _ trig _ _ o_cb o_done o_closers o_panic o_op o_err => stall_class trig o_cb o_done o_closers o_panic o_op o_err
+  | ReaderEnd _ _ cause _ _ o_cb o_done o_ctx o_ops o_late => reader_end_class cause o_cb o_done o_ctx o_ops o_late
   end.
 
 Definition mismatches (cs : list case) : list N := bad_indices (fun c => negb (agrees c)) cs.
